@@ -355,6 +355,83 @@ def big_listing_section(res, count):
                 res["violations"].append(("unchanged-file-planned", f"{direction}: both trees hold the same {n_files} files (same size and mtime), yet the plan is `{m.group(0)}`: names of the remote listing were misread", rep))
 
 
+def comma_exclude_section(res, count):
+    """C04 / C15: an `--exclude` pattern is ONE glob, whatever characters it holds — a comma in particular (RCS `*,v` files, names
+    like `keep,me.cfg`). `--delete --exclude 'keep,me.cfg'` protects the destination-only file of that name; `--exclude '*,v'`
+    leaves out the `,v` files and nothing else (seed C04-N: the option gained `value_delimiter = ','`, which turned `*,v` into the
+    two patterns `*` and `v`: nothing was delivered, exit 0)."""
+    for direction in ("local", "push", "pull"):
+        with Sandbox("C04comma") as sb:
+            src = {"main.c": (b"int main;\n", 1_650_000_000, 0), "main.c,v": (b"rcs\n", 1_650_000_001, 0), "lib/util.c": (b"util\n", 1_650_000_002, 0),
+                   "lib/util.c,v": (b"rcs util\n", 1_650_000_003, 0), "v": (b"a file called v\n", 1_650_000_004, 0)}
+            dst = {"keep,me.cfg": (b"local configuration, excluded\n", 1_500_000_000, 0), "old.txt": (b"stale\n", 1_500_000_000, 0)}
+            rc, out, err, s1, d1, sroot, droot = run_case(sb, None, direction, src, dst, ["--delete", "--exclude", "keep,me.cfg", "--exclude", "*,v"], count)
+            count(f"comma-in-exclude/{direction}")
+            rep = {"direction": direction, "flags": ["--delete", "--exclude", "keep,me.cfg", "--exclude", "*,v"], "rc": rc, "stdout": out[-300:], "stderr": err[-300:],
+                   "destination_after": sorted(d1)}
+            if "keep,me.cfg" not in d1:
+                res["violations"].append(("excluded-destination-file-removed", f"{direction}: destination file `keep,me.cfg` matches --exclude 'keep,me.cfg' and was removed by --delete (rc {rc})", rep))
+            missing = [p for p in ("main.c", "lib/util.c", "v") if d1.get(p, (None,))[0] != src[p][0]]
+            if rc == 0 and missing:
+                res["violations"].append(("exit-0-but-planned-file-not-delivered", f"{direction}: --exclude '*,v' excludes only the `,v` files, yet {missing} were not delivered and the run exited 0", rep))
+            extra = [p for p in ("main.c,v", "lib/util.c,v") if p in d1]
+            if extra:
+                res["violations"].append(("excluded-file-transferred", f"{direction}: {extra} match --exclude '*,v' and were delivered", rep))
+            if rc == 0 and "old.txt" in d1:
+                res["violations"].append(("stale-file-not-deleted", f"{direction}: --delete left the stale, non-excluded old.txt in place and exited 0", rep))
+
+
+def unresolvable_link_in_destination_section(res, count):
+    """C14 next to its domain: the trees to synchronise are regular files; the DESTINATION also holds, from elsewhere, a symlink that
+    cannot be resolved (`docs/self -> self`: ELOOP; `docs/through -> ../notes.txt/x`: ENOTDIR). Such a link is not a file and not an
+    error of the walk; after one successful run the same command again must find nothing to do (seed C14-N: the walker reported
+    the link's resolution error, the destination scan's `unwrap_or_default()` turned that into an EMPTY listing, every run re-sent
+    everything and exited 0)."""
+    for direction in ("local", "pull"):
+        for link, target in (("docs/self", "self"), ("docs/through", "../notes.txt/x")):
+            with Sandbox("C14ul") as sb:
+                sroot = sb.path("src") if direction == "local" else os.path.join(sb.home, "rsrc")
+                droot = sb.path("dst")
+                src = {"notes.txt": (b"notes\n", 1_650_000_000, 0), "docs/a.txt": (b"alpha\n", 1_650_000_001, 0), "docs/b.bin": (b"B" * 3000, 1_650_000_002, 0), "c": (b"", 1_650_000_003, 0)}
+                write_tree(sroot, src); os.makedirs(os.path.join(droot, "docs"))
+                os.symlink(target, os.path.join(droot, link))
+                sarg = sroot if direction == "local" else f"{HOST}:rsrc"
+                rc1, o1, e1 = sb.run(["sync", "-r", sarg, droot], timeout=60)
+                snap = read_tree(droot)
+                rc2, o2, e2 = sb.run(["sync", "-r", sarg, droot], timeout=60)
+                txt = o2.decode("utf-8", "replace") + e2.decode("utf-8", "replace")
+                count(f"unresolvable-link-in-destination/{direction}")
+                plan = [ln for ln in txt.splitlines() if ln.startswith("Plan:")]
+                rep = {"direction": direction, "destination_link": f"{link} -> {target}", "rc1": rc1, "rc2": rc2, "second_run_plan": plan, "second_run_output": txt[-300:]}
+                if rc1 == 0 and (rc2 != 0 or (plan and not plan[0].startswith("Plan: 0 to transfer")) or read_tree(droot) != snap):
+                    res["violations"].append(("second-run-not-a-no-op", f"{direction}: the destination holds an unresolvable symlink ({link} -> {target}) — the immediate second run planned {plan} (rc {rc2})", rep))
+
+
+def excluded_twin_section(res, count):
+    """C15 "excluded paths are neither sent nor deleted": the destination holds an EXCLUDED file that is byte-, size- and
+    mtime-identical to a file the source has newly gained at another path (a copy made with `cp -p`, a moved report). With
+    `--delete --exclude keep` the excluded `keep/report.bin` stays exactly where it is, the new `data/report.bin` is delivered,
+    the stale `old.txt` goes (seed C15-N: a "moved file" optimisation renamed destination-only files to their new paths without
+    consulting the excludes)."""
+    body = bytes((i * 13) % 251 for i in range(40_000))
+    for direction in ("local", "push", "pull"):
+        with Sandbox("C15twin") as sb:
+            src = {"data/report.bin": (body, 1_650_000_000, 0), "a.txt": (b"a\n", 1_650_000_001, 0)}
+            dst = {"keep/report.bin": (body, 1_650_000_000, 0), "old.txt": (b"stale\n", 1_500_000_000, 0), "a.txt": (b"a\n", 1_650_000_001, 0)}
+            flags = ["--delete", "--exclude", "keep"]
+            rcd, outd, errd, _, dd, _, _ = run_case(sb, None, direction, src, dst, flags, count, dry=True)
+            rc, out, err, s1, d1, sroot, droot = run_case(sb, None, direction, src, dst, flags, count)
+            count(f"excluded-twin/{direction}")
+            printed = sorted(ln.strip() for ln in outd.splitlines() if ln.startswith(("send ", "delete ")))
+            rep = {"direction": direction, "flags": flags, "rc": rc, "dry_run_printed": printed, "stdout": out[-300:], "stderr": err[-300:], "destination_after": sorted(d1)}
+            if d1.get("keep/report.bin", (None,))[0] != body:
+                res["violations"].append(("excluded-destination-file-removed", f"{direction}: keep/report.bin is excluded (--exclude keep) and is gone or changed after `sync -r --delete` (rc {rc}); the dry run printed {printed}", rep))
+            if rc == 0 and d1.get("data/report.bin", (None,))[0] != body:
+                res["violations"].append(("exit-0-but-planned-file-not-delivered", f"{direction}: data/report.bin was not delivered and the run exited 0", rep))
+            if rc == 0 and "old.txt" in d1:
+                res["violations"].append(("stale-file-not-deleted", f"{direction}: --delete left old.txt and exited 0", rep))
+
+
 def deep_tree_section(rng, res, count):
     """C04 "any nesting": a source tree nested beyond PATH_MAX (built and read back through directory handles). The run may exit 0
     only if EVERY source file arrived; if it cannot handle the depth it must fail and say so (D22: the walker classified entries
@@ -927,11 +1004,15 @@ def run(pid, tier, seed, rundir, model_run):
         many_jobs_section(rng, res, count)
         split_listing_section(rng, thorough, res, count)
         write_limit_section(rng, thorough, res, count)
+        comma_exclude_section(res, count)
         big_listing_section(res, count)
     if pid == "C15":
+        comma_exclude_section(res, count)
+        excluded_twin_section(res, count)
         remote_failure_section(rng, thorough, res, count)      # (for its excluded-file-vs-directory part: excludes protect)
     if pid == "C14":
         symlink_second_run_section(res, count)
+        unresolvable_link_in_destination_section(res, count)
         big_listing_section(res, count)
         hardlinked_destination_section(res, count)
     if pid == "C19":
